@@ -147,6 +147,8 @@ def truthy(v):
                        for s in v.slots.values()]) if v.slots else False
     if isinstance(v, SeqBase):
         return v.nonempty()
+    if isinstance(v, (SOptRec, SOptTuple)):
+        return v.present
     if isinstance(v, SObj):
         return True
     if type(v).__name__ == 'AbstractFn':
@@ -223,6 +225,28 @@ class SRec(Sym):
     def copy(self):
         r = SRec(self.name, {k: Slot(s.present, s.value) for k, s in self.slots.items()}, self.ident)
         return r
+
+
+class SOptRec(Sym):
+    """`rec.get(key)` for an optional nested record: the record if `present` else None."""
+
+    def __init__(self, present, rec):
+        self.present = present
+        self.rec = rec
+
+    def __hash__(self):
+        return id(self)
+
+
+class SOptTuple(Sym):
+    """fetchone() inside a generic iteration: the row tuple if `present` else None."""
+
+    def __init__(self, present, elem):
+        self.present = present
+        self.elem = elem
+
+    def __hash__(self):
+        return id(self)
 
 
 class SObj(Sym):
